@@ -77,6 +77,15 @@ def run(tier):
         text, _ = GP.source_modules(p, assign, random.Random(i))
         if rng.random() < 0.5: text = GM.mutate(rng, text)
         cases.append(("s%d" % i, text, "modules"))
+    # modules that are each valid but define the same symbol (two `main`s, two public functions, public and
+    # extern functions of one name, a public function next to a private one)
+    defs = {"main": "fn main() -> i32\n{\n\treturn: %d\n}\n", "pub": "pub fn f() -> i32\n{\n\treturn: %d\n}\n", "ext": "extern fn f() -> i32\n{\n\treturn: %d\n}\n",
+            "pubext": "pub extern fn f() -> i32\n{\n\treturn: %d\n}\n", "priv": "fn f() -> i32\n{\n\treturn: %d\n}\n", "head": "extern fn f() -> i32;\n"}
+    kc = 0
+    for a in defs:
+        for b in defs:
+            ta = defs[a] % 1 if "%d" in defs[a] else defs[a]; tb = defs[b] % 2 if "%d" in defs[b] else defs[b]
+            cases.append(("sc%d" % kc, "//// module a.pn\n%s//// module b.pn\n%s" % (ta, tb), "symbol-clash")); kc += 1
     # deep nesting within the stated bound (depth <= 256)
     for d in (32, 128, 256):
         cases.append(("n%da" % d, "fn main() -> i32\n{\n\treturn: " + "(" * d + "1" + ")" * d + "\n}\n", "nesting"))
